@@ -25,6 +25,9 @@ def outcome(f):
 NONDETERMINISTIC_OPS = {1, 2, 3}      # sign with OpenSSL's random nonce (see impl_run.py)
 
 
+from .C13 import small_r_or_s  # noqa: E402
+
+
 def run(op, a):
     if op in (1, 2):
         template, secrets, m, tv, idx, hts, tv2, idx2, wrongkey = a[:9]
@@ -62,7 +65,7 @@ def run(op, a):
             der = k.sign(h)
             if short:
                 for _ in range(300):
-                    if len(der) < 8 or der[3] < 32 or der[5 + der[3]] < 32:
+                    if small_r_or_s(der):
                         break
                     der = k.sign(h)
             sigs.append(der + bytes([ht]))
